@@ -33,7 +33,7 @@ func runC01(opt *Options) int {
 	convs = append(convs, layerb.FamilyCustom(false)...)
 	// fallible custom functions below recursive types: the signatures of generated methods change while they are built
 	for i, c := range layerb.FamilyError(false) {
-		if strings.Contains(c.ID, "recp") || strings.Contains(c.ID, "rec_") || i%9 == 0 {
+		if strings.Contains(c.ID, "recp") || strings.Contains(c.ID, "rec_") || strings.Contains(c.ID, "extend_underlying") || i%9 == 0 {
 			convs = append(convs, c)
 		}
 	}
